@@ -474,3 +474,153 @@ Proof.
     + intros k Hk. rewrite Psw2, LP. now apply saved_psw_keeps_bit.
     + intros a Ha Da Db. unfold ramb. rewrite B2. fold (ramb m1 a). now apply Fr.
 Qed.
+
+(* ---- CALLPS into a control block with R ---- *)
+Lemma entry_from_effect_R m N P S H :
+  bus_wf (mbus m) ->
+  R m R_PCBP = P -> R m R_ISP = S -> ldw m N = H ->
+  pcb_in_ram N -> in_ram_w (N + 64) -> ldw m (N + 64) = 0 ->
+  pcb_in_ram P -> in_ram_w S -> S + 4 < 4294967296 ->
+  (P + 64 <= N \/ N + 68 <= P) -> (S + 4 <= P \/ P + 64 <= S) -> (S + 4 <= N \/ N + 68 <= S) ->
+  Z.testbit H 8 = true -> Z.testbit H 7 = false ->
+  exists m1, entry_from N m = Ok tt m1
+    /\ bus_wf (mbus m1)
+    /\ R m1 R_ISP = S + 4 /\ R m1 R_PCBP = N /\ PSW m1 = handler_psw H
+    /\ R m1 R_PC = ldw m (N + 4) /\ R m1 R_SP = ldw m (N + 8)
+    /\ ldw m1 S = w32 P /\ ldw m1 P = w32 (saved_psw (PSW m) H)
+    /\ ldw m1 (P + 4) = w32 (R m R_PC) /\ ldw m1 (P + 8) = w32 (R m R_SP)
+    /\ ldw m1 (P + 20) = w32 (R m R_AP) /\ ldw m1 (P + 24) = w32 (R m R_FP)
+    /\ (forall k, 0 <= k <= 8 -> ldw m1 (P + 28 + 4 * k) = w32 (R m k))
+    /\ (forall a, RAMB <= a -> (a < S \/ S + 4 <= a) -> (a < P \/ P + 64 <= a) -> ramb m1 a = ramb m a).
+Proof.
+  intros W EP ES EH HN HN64 LN64 HP HS Hlt D1 D2 D3 HR HI.
+  pose proof HN as [n1 [n2 n3]]. pose proof HP as [p1 [p2 p3]]. pose proof HS as [s1 [s2 s3]].
+  assert (HN0 : in_ram_w N) by (replace N with (N + 0) by lia; apply pcb_word; [exact HN | lia | reflexivity]).
+  assert (HN4 : in_ram_w (N + 4)) by (apply pcb_word; [exact HN | lia | reflexivity]).
+  assert (HN8 : in_ram_w (N + 8)) by (apply pcb_word; [exact HN | lia | reflexivity]).
+  assert (HS' : in_ram_w (R m R_ISP)) by (rewrite ES; exact HS).
+  assert (Hlt' : R m R_ISP + 4 < 4294967296) by (rewrite ES; exact Hlt).
+  unfold entry_from.
+  pose proof (entry0_wf m W) as W0.
+  assert (E13 : R (entry0 m) R_PCBP = P) by (rewrite entry0_R by (unfold R_PCBP; lia); exact EP).
+  assert (LN : forall a, RAMB <= a -> (a + 4 <= S \/ S + 4 <= a) -> ldw (entry0 m) a = ldw m a).
+  { intros a Ha Da. apply entry0_ldw; rewrite ?ES; unfold RAMB in *; lia. }
+  assert (LN0 : ldw (entry0 m) N = H) by (rewrite LN by (unfold RAMB in *; lia); exact EH).
+  assert (HR0 : Z.testbit (ldw (entry0 m) N) 8 = true) by (rewrite LN0; exact HR).
+  assert (D1' : N + 4 <= P \/ P + 64 <= N) by lia.
+  destruct (cs1_effect_R N P (entry0 m) W0 E13 HP HN0 D1' HR0)
+    as [m5 (E5 & W5 & Psw5 & Fp5 & Rg5 & L0 & L4 & L8 & L20 & L24 & Lk & Fr5)].
+  rewrite E5. cbn [bind].
+  assert (L5 : forall a, RAMB <= a -> (a + 4 <= P \/ P + 64 <= a) -> ldw m5 a = ldw (entry0 m) a).
+  { intros a Ha Da. apply ldw_frame. intros k Hk. apply Fr5; lia. }
+  assert (L5N0 : ldw m5 N = H) by (rewrite L5 by (unfold RAMB in *; lia); exact LN0).
+  rewrite cs2_effect; [| exact W5 | exact HN0 | exact HN4 | exact HN8 | rewrite L5N0; exact HI].
+  cbn [bind]. rewrite L5N0.
+  unfold psw_enter_2, setPSW, PSW. rconst. rewrite !R_setR_other by lia. rewrite R_setR_same.
+  fold (handler_psw H).
+  assert (BR : bset (handler_psw H) F_R = true).
+  { unfold handler_psw. rewrite bset_R, !Z.lor_spec, !testbit_clr32, HR. psw_consts. eval_closed_bits. reflexivity. }
+  rewrite (cs3_effect_R_empty _ N);
+    [| rewrite ?mbus_setR; exact W5
+     | rconst; rewrite !R_setR_other by lia; apply R_setR_same
+     | exact HN64
+     | rewrite !ldw_setR; rewrite L5 by (unfold RAMB in *; lia); rewrite LN by (unfold RAMB in *; lia); exact LN64
+     | unfold PSW; rconst; rewrite R_setR_same; exact BR].
+  unfold after_cs3.
+  eexists. split; [reflexivity|].
+  split; [rewrite ?mbus_setR; exact W5|].
+  split.
+  { unfold R_ISP. rewrite !R_setR_other by lia. rewrite Rg5 by lia. change 14 with R_ISP. rewrite entry0_isp. rconst. lia. }
+  split; [unfold R_PCBP; rewrite !R_setR_other by lia; apply R_setR_same|].
+  split; [unfold PSW, R_PSW; rewrite !R_setR_other by lia; apply R_setR_same|].
+  split; [unfold R_PC; rewrite !R_setR_other by lia; rewrite R_setR_same; rewrite L5 by (unfold RAMB in *; lia); apply LN; unfold RAMB in *; lia|].
+  split; [unfold R_SP; rewrite !R_setR_other by lia; rewrite R_setR_same; rewrite L5 by (unfold RAMB in *; lia); apply LN; unfold RAMB in *; lia|].
+  rewrite !ldw_setR.
+  split.
+  { rewrite L5 by (unfold RAMB in *; lia). rewrite <- ES, <- EP. apply entry0_ldw_isp. rconst. rewrite ES. exact s1. }
+  split.
+  { rewrite L0, Psw5, LN0, entry0_psw. reflexivity. }
+  split; [rewrite L4; rewrite entry0_R by (unfold R_PC; lia); reflexivity|].
+  split; [rewrite L8; rewrite entry0_R by (unfold R_SP; lia); reflexivity|].
+  split; [rewrite L20; rewrite entry0_R by (unfold R_AP; lia); reflexivity|].
+  split; [rewrite L24; rewrite entry0_R by (unfold R_FP; lia); reflexivity|].
+  split; [intros k Hk; rewrite !ldw_setR; rewrite Lk by lia; rewrite entry0_R by lia; reflexivity|].
+  intros a Ha D4 D5. rewrite !ramb_setR. rewrite Fr5 by (try assumption; unfold RAMB in *; lia).
+  apply entry0_ramb; rconst; rewrite ?ES; assumption.
+Qed.
+
+(* CALLPS to a control block with the R flag (kernel level, no I, empty block-move lists) whose code returns at once
+   with RETPS: the caller continues after the CALLPS with SP, r0-r10, PCBP, ISP, condition codes, priority and execution
+   level as they were *)
+Theorem callps_retps_transparent_R irc irr m :
+  iopcode irc = 12460 -> iopcode irr = 12488 -> is_kernel m = true ->
+  bus_wf (mbus m) ->
+  let N := R m 0 in
+  let P := R m R_PCBP in
+  let S := R m R_ISP in
+  pcb_in_ram N -> in_ram_w (N + 64) -> ldw m (N + 64) = 0 ->
+  pcb_in_ram P -> in_ram_w (P + 64) -> ldw m (P + 64) = 0 ->
+  in_ram_w S -> S + 4 < 4294967296 ->
+  (P + 68 <= N \/ N + 68 <= P) -> (S + 4 <= P \/ P + 68 <= S) -> (S + 4 <= N \/ N + 68 <= S) ->
+  let H := ldw m N in
+  0 <= H -> Z.testbit H 8 = true -> Z.testbit H 7 = false -> Z.testbit H 11 = false -> Z.testbit H 12 = false ->
+  Z.testbit (PSW m) 7 = false ->
+  (forall i, 0 <= i <= 15 -> 0 <= R m i < 4294967296) ->
+  exists m1 m2,
+    exec irc m = Ok 0 m1 /\ exec irr m1 = Ok 0 m2
+    /\ R m2 R_PC = add32 (R m R_PC) 2 /\ R m2 R_SP = R m R_SP /\ R m2 R_PCBP = P /\ R m2 R_ISP = S
+    /\ (forall i, 0 <= i <= 10 -> R m2 i = R m i)
+    /\ (forall k, In k [21; 20; 19; 18; 16; 15; 14; 13; 12; 11; 10; 9; 7] -> Z.testbit (PSW m2) k = Z.testbit (PSW m) k)
+    /\ (forall a, RAMB <= a -> (a < S \/ S + 4 <= a) -> (a < P \/ P + 64 <= a) -> ramb m2 a = ramb m a).
+Proof.
+  intros Hc Hr K W N P S HN HN64 LN64 HP HP64 LP64 HS Hlt D1 D2 D3 H H0 HR HI H11 H12 PI Rg.
+  set (mc := setR m R_PC (add32 (R m R_PC) 2)).
+  assert (Wc : bus_wf (mbus mc)) by exact W.
+  assert (Rc : forall i, 0 <= i <= 15 -> i <> 15 -> R mc i = R m i)
+    by (intros i Hi Ni; unfold mc; apply R_setR_other; unfold R_PC; lia).
+  assert (Lc : forall a, ldw mc a = ldw m a) by (intros a; apply ldw_setR).
+  assert (Bc : forall a, ramb mc a = ramb m a) by (intros a; apply ramb_setR).
+  assert (D1' : P + 64 <= N \/ N + 68 <= P) by lia.
+  assert (D2' : S + 4 <= P \/ P + 64 <= S) by lia.
+  destruct (entry_from_effect_R mc N P S H Wc)
+    as [m1 (E1 & W1 & Isp1 & Pcbp1 & Psw1 & Pc1 & Sp1 & LS & LP & LP4 & LP8 & LP20 & LP24 & LPk & Fr)];
+    try assumption; try (apply Rc; unfold R_PCBP, R_ISP; lia); try apply Lc.
+  rewrite (callps_is_entry_from irc m Hc K W HS Hlt). fold N. fold mc. rewrite E1. cbn [bind].
+  pose proof HP as [p1 [p2 p3]]. pose proof HS as [s1 [s2 s3]]. pose proof HP64 as [q1 [q2 q3]].
+  assert (Pr : 0 <= P < 4294967296) by (unfold RAMB, RAME in *; lia).
+  assert (EP : ldw m1 (R m1 R_ISP - 4) = P).
+  { rewrite Isp1. replace (S + 4 - 4) with S by lia. rewrite LS. now apply w32_id. }
+  assert (PSWc : PSW mc = PSW m) by (unfold PSW; apply Rc; unfold R_PSW; lia).
+  assert (L64 : ldw m1 (P + 64) = 0).
+  { rewrite <- LP64, <- Lc. apply ldw_frame. intros k Hk. apply Fr; unfold RAMB in *; lia. }
+  destruct (retps_effect_R irr m1 Hr) as [m2 (E2 & B2 & Isp2 & Pcbp2 & Psw2 & Pc2 & Sp2 & Fp2 & Ap2 & Rk2)].
+  - eapply handler_psw_kernel; eauto.
+  - exact W1.
+  - rewrite Isp1. unfold RAMB in *. lia.
+  - rewrite Isp1. replace (S + 4 - 4) with S by lia. exact HS.
+  - rewrite EP. exact HP.
+  - rewrite EP. exact HP64.
+  - rewrite EP. exact L64.
+  - rewrite EP, LP, PSWc. unfold w32. rewrite Z.mod_pow2_bits_low with (n := 32) by lia.
+    unfold saved_psw. rewrite Z.lor_spec, testbit_clr32, Z.land_spec, HR. psw_consts. eval_closed_bits.
+    now rewrite orb_true_r.
+  - rewrite EP, LP, PSWc. unfold w32. rewrite Z.mod_pow2_bits_low with (n := 32) by lia.
+    unfold saved_psw, psw1. repeat (rewrite Z.lor_spec || rewrite Z.land_spec || rewrite testbit_clr32).
+    rewrite PI. psw_consts. eval_closed_bits. rewrite ?andb_false_r, ?andb_true_r, ?orb_false_r. reflexivity.
+  - rewrite EP in *. exists m1, m2.
+    split; [reflexivity|]. split; [exact E2|].
+    split.
+    { rewrite Pc2, LP4. unfold mc. rewrite R_setR_same. unfold add32. unfold w32. now rewrite Z.mod_mod. }
+    split; [rewrite Sp2, LP8; rewrite Rc by (unfold R_SP; lia); apply w32_id; apply Rg; unfold R_SP; lia|].
+    split; [exact Pcbp2|].
+    split; [rewrite Isp2, Isp1; lia|].
+    split.
+    { intros i Hi.
+      assert (Ei : 0 <= i <= 8 \/ i = 9 \/ i = 10) by lia. destruct Ei as [Ei|[Ei|Ei]].
+      - rewrite (Rk2 i Ei), (LPk i Ei). rewrite Rc by lia. apply w32_id. apply Rg. lia.
+      - subst i. change 9 with R_FP. rewrite Fp2, LP24. rewrite Rc by (unfold R_FP; lia). apply w32_id. apply Rg. unfold R_FP. lia.
+      - subst i. change 10 with R_AP. rewrite Ap2, LP20. rewrite Rc by (unfold R_AP; lia). apply w32_id. apply Rg. unfold R_AP. lia. }
+    split.
+    + intros k Hk. rewrite Psw2, LP, PSWc. now apply saved_psw_keeps_bit.
+    + intros a Ha Da Db. unfold ramb. rewrite B2. fold (ramb m1 a). rewrite Fr by assumption. apply Bc.
+Qed.
